@@ -115,7 +115,7 @@ var files = ev.NewCheck("C03", "written-files",
 		return gen.API(t, gen.APIOpts{MaxTracks: 6, MaxOps: 10, MaxPayload: 70000, MaxDelta: 0x0FFFFFFF})
 	}, run)
 
-func TestPropWrittenFiles(t *testing.T) { files.Rapid(t, 700, 50000) }
+func TestPropWrittenFiles(t *testing.T) { files.Rapid(t, 2000, 50000) }
 
 // ---- VLQ codec ------------------------------------------------------------------------
 
